@@ -50,6 +50,9 @@ func IntBounds(base string) (lo, hi *big.Int) { return intBounds(base) }
 
 func IsIntType(base string) bool { lo, _ := intBounds(base); return lo != nil }
 
+// HostileStrings is the unfriendly string alphabet (reserved characters of paths, JSON and XML).
+func HostileStrings() []string { return append([]string{}, hostileStrings...) }
+
 // RandScalar draws a value of type t in canonical form. hostile selects the unfriendly alphabet.
 func RandScalar(r *rand.Rand, t *SType, hostile bool) string {
 	switch t.Base {
